@@ -8,12 +8,12 @@ TECHNIQUE = ("runtime monitoring: (a) compute/update_scaling histories judged by
 LEVEL_TEXT = "linear-algebra identities re-checked in numpy on every observed scaling / KKT solve; held on the generated histories, not a proof"
 RULE = ("(a) random interior (s,z) per cone structure incl. mnl, then 1..30 updates (random or converging to complementarity); "
         "(b) factories ldl/ldl2/chol/chol2/qr x dense/sparse x with/without H, Df x factor/solve histories; "
-        "(c) conelp/coneqp solves with an observing kktsolver.  class signature = monitor x cone shape class x factory x storage x history class")
+        "(c) conelp/coneqp/cpl/cp/gp solves (incl. steep geometric programs that drive cpl through its saved/resumed line-search states) with an observing kktsolver.  class signature = monitor x cone shape class x factory x storage x history class")
 ASSUMPTIONS = ["W is reconstructed from (dnl, d, beta, v, r) by its documented definition; di, dnli, rti are checked against it",
                "identities are measured relative to the norms of the factors (threshold 1e-9 for random scalings, scaled by the condition of W in converging histories)"]
 REQUIRED_COUNTERS = ["a.compute", "a.update", "a.history>=10", "b.structurally-sparse", "b.structurally-sparse-singular-S", "b.zero-pattern-in-G", "b.ldl", "b.ldl2", "b.chol", "b.chol2", "b.qr", "b.chol2.singular-branch",
                      "b.chol2.refactor", "b.sparse", "b.mnl", "b.H", "b.H-lower-storage", "b.interleaved", "c.W-observed", "c.frame-identity-checked",
-                     "c.conelp", "c.coneqp"]
+                     "c.conelp", "c.coneqp", "c.cpl", "c.cp", "c.gp", "c.gp-steep", "c.nl.frame-identity-checked"]
 
 
 def plan(tier):
@@ -435,12 +435,122 @@ def run(ctx):
                        "status": sol.get("status") if sol else None})
         c.cls("c", entry, d.shape_class(), nm, start, sol.get("status") if sol else "exception")
 
+    # ------------------------------------------------------------------ (c) nonlinear solvers
+    from vlib.gen import nlprob as nl
+    from vlib import linemon
+    from cvxopt import cvxprog
+    bm = linemon.BranchMonitor(cvxprog.cpl, linemon.CPL_MARKERS)
+    bm_on = bm.start()
+    for m_ in bm.missing:
+        ctx.count("c.cpl-branch-marker-not-found." + m_)
+
+    def mon_c_nl(c):
+        """cpl / cp / gp with a user kktsolver that delegates to a built-in factory: every W handed to it must satisfy the
+        documented invariants, and the solver's own s, z, lmbda (read-only frame peek) must satisfy W z = W^-T s = lmbda -
+        also right after cpl restored a saved line-search state (steep geometric programs reach those branches)."""
+        rng = c.rng
+        entry = rng.choice(["cpl", "cp", "gp", "gp"])
+        steep = entry == "gp" and rng.random() < 0.75
+        pr = nl.gen_cpl(rng) if entry == "cpl" else nl.gen_gp(rng, steep=steep) if entry == "gp" else nl.gen_cp(rng)
+        d = pr.dims
+        mnl_user = len(pr.funcs) - (0 if entry == "cpl" else 1)
+        nm = rng.choice(["ldl", "ldl2", "chol"])
+        spG = rng.random() < 0.3
+        Gm, Am = sr.mk(pr.G, spG), sr.mk(pr.A)
+        fac = getattr(misc, "kkt_" + nm)(Gm, d.asdict(), Am, mnl_user)
+        log = []
+        F = pr.make_F(log)
+        seen = {"n": 0, "frame": 0}
+
+        def kkt(x, z, W):
+            seen["n"] += 1
+            ctx.count("c.W-observed")
+            ctx.count("c.nl.W-observed")
+            Wn = cone.npW(W)
+            f_, Df_, H_ = F(x, z)
+            solve = fac(W, H_, Df_ if entry == "cpl" else Df_[1:, :])
+            if seen["n"] > 40:
+                ctx.count("c.late-scalings-not-judged")
+                return solve
+            bad, meas = cone.check_W_invariants(Wn, tol=1e-9)
+            for k_, v_ in meas.items():
+                ctx.maxobs("W-invariant-in-nl-solve." + k_, v_)
+            c.check()
+            c.require(len(Wn.get("dnl", ())) == mnl_user and len(Wn.get("dnli", ())) == mnl_user, "in-solve:%s:W-dnl-length" % entry,
+                      "W['dnl'] handed to the user kktsolver has length %d, mnl is %d" % (len(Wn.get("dnl", ())), mnl_user))
+            for b in bad:
+                c.fail("in-solve:%s:%s" % (entry, b[0]), "W handed to kktsolver violates invariant %s (%r) at call %d" % (b[0], b[1], seen["n"]))
+            # the solver's own iterates: frame of cpl (directly above for cpl, above cp's kktsolver_e otherwise)
+            fr = sys._getframe(1)
+            depth = 0
+            while fr is not None and fr.f_code.co_name != "cpl" and depth < 6:
+                fr = fr.f_back; depth += 1
+            if fr is None or fr.f_code.co_name != "cpl" or bad:
+                return solve
+            loc = fr.f_locals
+            if not all(k_ in loc for k_ in ("s", "z", "lmbda", "W", "mnl", "dims")):
+                return solve
+            Wf = cone.npW(loc["W"])
+            if entry != "cpl":
+                # what the user sees must be the solver's scaling without the epigraph component
+                same = (np.array_equal(Wf["dnl"][1:], Wn["dnl"]) and np.array_equal(Wf["dnli"][1:], Wn["dnli"]) and
+                        np.array_equal(Wf["d"], Wn["d"]) and all(np.array_equal(a_, b_) for a_, b_ in zip(Wf["r"], Wn["r"])))
+                c.require(same, "in-solve:%s:user-W-differs-from-solver-W" % entry, "W handed to the user kktsolver is not the solver's W minus the epigraph row")
+                badf, _ = cone.check_W_invariants(Wf, tol=1e-9)
+                for b in badf:
+                    c.fail("in-solve:%s:full-%s" % (entry, b[0]), "cpl's own scaling violates invariant %s (%r) at call %d" % (b[0], b[1], seen["n"]))
+                if badf:
+                    return solve
+            df = cone.W_dims(Wf)
+            s_, z_, lm_ = vec(loc["s"]), vec(loc["z"]), np.array(list(loc["lmbda"]))
+            if len(s_) == df.N and len(lm_) >= df.cdim_diag:
+                nW, nWi = W_norms(Wf)
+                lu = lam_unpacked(lm_[:df.cdim_diag], df)
+                a = cone.W_apply(Wf, cone.symmetrize(s_, df), "T", "I")
+                b_ = cone.W_apply(Wf, cone.symmetrize(z_, df), "N", "N")
+                ea = float(np.linalg.norm(a - lu)) / max(nWi * cone.snrm2(s_, df), 1e-300)
+                eb = float(np.linalg.norm(b_ - lu)) / max(nW * cone.snrm2(z_, df), 1e-300)
+                ctx.maxobs("in-nl-solve.relerr.W^-T s - lambda", ea)
+                ctx.maxobs("in-nl-solve.relerr.W z - lambda", eb)
+                seen["frame"] += 1
+                ctx.count("c.frame-identity-checked")
+                ctx.count("c.nl.frame-identity-checked")
+                c.require(ea <= 1e-7 and eb <= 1e-7, "in-solve:%s:Wz=W^-Ts=lambda" % entry,
+                          "iteration %r (relaxed_iters %r): W z = W^-T s = lambda violated: %.3g, %.3g" % (loc.get("iters"), loc.get("relaxed_iters"), ea, eb))
+            return solve
+        opts = {"show_progress": False}
+        if rng.random() < 0.3:
+            opts["refinement"] = rng.choice([0, 1, 2])
+        bm.take()
+        sol = exc = None
+        try:
+            if entry == "cpl":
+                sol = solvers.cpl(sr.mk(pr.c), F, Gm, sr.mk(pr.h), d.asdict(), Am, sr.mk(pr.b), kktsolver=kkt, options=opts)
+            else:
+                sol = solvers.cp(F, Gm, sr.mk(pr.h), d.asdict(), Am, sr.mk(pr.b), kktsolver=kkt, options=opts)
+        except (ValueError, ArithmeticError) as e:
+            exc = e
+        for k_, v_ in bm.take().items():
+            ctx.count("c.cpl-branch." + k_)
+            if steep: ctx.count("c.cpl-branch.steep-gp." + k_)
+        ctx.count("c." + entry)
+        if steep: ctx.count("c.gp-steep")
+        ctx.count("c.nl-status.%s" % (sol.get("status") if sol else "exception"))
+        c.desc.update({"entry": entry, "family": pr.family, "dims": d.key(), "kkt": nm, "W-seen": seen["n"], "exc": repr(exc) if exc else None,
+                       "status": sol.get("status") if sol else None})
+        c.cls("c", entry, pr.family, d.shape_class(), nm, sol.get("status") if sol else "exception")
+
     def one(c):
         m = (c.k + ctx.worker) % 3
         c.desc["monitor"] = "abc"[m]
-        [mon_a, mon_b, mon_c][m](c)
+        if m == 2 and c.rng.random() < 0.4:
+            c.desc["monitor"] = "c-nl"
+            mon_c_nl(c)
+        else:
+            [mon_a, mon_b, mon_c][m](c)
         if c.k < 3:
             ctx.sample(dict(c.desc))
 
     for k in ctx.cases():
         ctx.run_case(k, {}, one)
+    bm.stop()
